@@ -7,6 +7,7 @@ from ..facts import facts_at, cfg_node_of
 from ..dataflow import defs_reaching
 from ..guards import lower_bound
 from .shared import clamp_check, yields_of
+from ..pattern import pmatch, pstmt, text
 
 EXPLANATION = (
     "Structural necessary conditions of the ListOfDicts list operations decided from source: (SIB-12) filter / filter_out test "
@@ -71,18 +72,32 @@ def check(ctx):
             loops = [t for k, t in facts if t.startswith("iter:")]
             val = norm(y.value) if y.value is not None else None
             fn_t = [(k, t) for k, t in facts if t.startswith(f"{fn.params[1]}(")]
-            cmp_t = [(k, t) for k, t in facts if ("==" in t or "!=" in t) and "extract(" in t]
+            cmp_t = [(k, t) for k, t in facts if ("==" in t or "!=" in t) and "(" in t and not t.startswith(f"{fn.params[1]}(")
+                     and not t.startswith("len(") and not t.startswith("callable(")]
             if fn_t:
                 rec["callable"] = (fn_t[0][0], val, loops)
             if cmp_t:
                 k, t = cmp_t[0]
                 op = "==" if (("==" in t) == (k == "T")) else "!="
                 rec["kv"] = (op, val, loops)
-        for n in body_nodes(fn.node):
-            if isinstance(n, ast.Assign) and norm(n.targets[0]) == "extract":
+        # name-agnostic: the extractor is the itemgetter over the keys of the key=value pairs, the compared values their values
+        asg = sorted((n for n in body_nodes(fn.node) if isinstance(n, ast.Assign) and isinstance(n.targets[0], ast.Name)), key=lambda n: n.lineno)
+        exn = None
+        for n in asg:
+            if isinstance(n.value, ast.Call) and repo.dotted(fn, n.value.func) == "operator.itemgetter":
+                exn = n.targets[0].id
                 rec["extract"] = norm(n.value)
-            if isinstance(n, ast.Assign) and norm(n.targets[0]) == "values":
-                rec["values"].append(norm(n.value))
+        valn = None
+        for n in asg:
+            if pmatch(f"tuple({fn.kwarg}.values())", n.value) is not None:
+                valn = n.targets[0].id
+        if valn:
+            for n in asg:
+                if n.targets[0].id == valn:
+                    rec["values"].append(norm(n.value).replace(valn, "VALUES"))
+        if rec["kv"] is not None and exn and valn:
+            op, val, loops = rec["kv"]
+            rec["kv"] = (op, val, loops)
         if rec["callable"] is None or rec["kv"] is None or rec["extract"] is None:
             raise AnalysisError(f"{fn.qualname}: cannot extract the filter feature record ({rec}); idiom changed")
         recs[fn.name] = rec
@@ -98,7 +113,9 @@ def check(ctx):
                clause="partition by key=value condition")
         for which in ("callable", "kv"):
             loops = rec[which][2]
-            ok = rec[which][1] == "item" and loops == [f"iter:{fn.params[0]}"]
+            lp = [n for n in ast.walk(fn.node) if isinstance(n, ast.For) and norm(n.iter) == fn.params[0]]
+            tnames = {norm(l.target) for l in lp}
+            ok = rec[which][1] in tnames and loops == [f"iter:{fn.params[0]}"]
             ctx.ob("SIB-12", fn, f"{which} branch: yield {rec[which][1]} inside {loops}", fn.node, ok,
                    "the receiver's own items are yielded from a single pass in order" if ok else
                    "items are not yielded from one pass over the receiver", nontrivial=False, clause="preserving order")
@@ -190,9 +207,11 @@ def check(ctx):
                "a plain sequence of dicts is converted to a ListOfDicts first" if ok else
                "extend hands on the caller's dicts unconverted", clause="items support attribute access")
     fm = repo.fn(f"{LOD}.fill_missing_keys")
+    lp_fm = [n for n in ast.walk(fm.node) if isinstance(n, ast.For) and norm(n.iter) == fm.params[0]]
+    itn = norm(lp_fm[0].target) if lp_fm else "item"
     stores = [n for n in body_nodes(fm.node) if isinstance(n, ast.Assign) and isinstance(n.targets[0], ast.Subscript)
-              and norm(n.targets[0].value) == "item"]
-    ok = bool(stores) and all(("T", f"{norm(s_.targets[0].slice)} not in item") in facts_at(fm, s_) for s_ in stores)
+              and norm(n.targets[0].value) == itn]
+    ok = bool(stores) and all(("T", f"{norm(s_.targets[0].slice)} not in {itn}") in facts_at(fm, s_) for s_ in stores)
     ctx.rule("KEY-guard", "fill_missing_keys writes a key only when the item lacks it")
     ctx.ob("KEY-guard", fm, norm(stores[0]) if stores else "item[key] = value", stores[0] if stores else fm.node, ok,
            "a key is filled in only when it is absent from the item" if ok else
@@ -203,9 +222,11 @@ def check(ctx):
     calls = [c for f, c in calls_in(srt) if repo.dotted(f, c.func) == "builtins.sorted"]
     other = [c for f, c in calls_in(srt) if isinstance(c.func, ast.Attribute) and c.func.attr == "sort" and "list" in norm(c.func.value)]
     ctx.count("sorted() calls in ListOfDicts.sort", len(calls), 1)
+    sloops = [n for n in ast.walk(srt.node) if isinstance(n, ast.For) and isinstance(n.target, ast.Tuple) and len(n.target.elts) == 2]
+    KEYV, DIRV = (norm(e) for e in sloops[0].target.elts) if sloops else ("key", "dir")
     for c in calls:
         rv = kw(c, "reverse")
-        ok = rv is not None and norm(rv) in ("dir < 0", "dir == -1", "0 > dir")
+        ok = rv is not None and norm(rv) in (f"{DIRV} < 0", f"{DIRV} == -1", f"0 > {DIRV}")
         ctx.ob("ORD-sort", srt, norm(c), c, ok, "descending keys are sorted with reverse=True" if ok else
                f"reverse={norm(rv) if rv is not None else None}: the direction is not (correctly) honoured",
                clause="stable ordering by the given keys and directions")
@@ -224,14 +245,16 @@ def check(ctx):
     for r in rets:
         v = r.value
         if isinstance(v, ast.IfExp) and isinstance(v.body, ast.Tuple) and isinstance(v.orelse, ast.Tuple):
-            asc, desc = (v.body, v.orelse) if norm(v.test) in ("dir > 0", "dir == 1") else (v.orelse, v.body)
+            asc, desc = (v.body, v.orelse) if norm(v.test) in (f"{DIRV} > 0", f"{DIRV} == 1") else (v.orelse, v.body)
+            if norm(v.test) not in (f"{DIRV} > 0", f"{DIRV} == 1", f"{DIRV} < 0", f"{DIRV} == -1"):
+                continue
             a0, d0 = norm(asc.elts[0]), norm(desc.elts[0])
             ok = a0.endswith("is None") and d0.endswith("is not None")
             why = ("ascending: None flag True sorts last; descending (reverse=True): 'is not None' flag keeps None last" if ok else
                    f"flags {a0!r}/{d0!r}: None is not placed last in both directions")
     ctx.ob("ORD-sort", sk, norm(rets[0].value) if rets else "sort_key", rets[0] if rets else sk.node, ok, why, clause="with None last")
     raises = [n for n in body_nodes(srt.node) if isinstance(n, ast.Raise)]
-    ok = any(any(("in" in t.split()) and "dir" in t and "1" in t for k, t in facts_at(srt, r)) for r in raises)
+    ok = any(any(("in" in t.split()) and DIRV in t and "1" in t for k, t in facts_at(srt, r)) for r in raises)
     ctx.ob("ORD-sort", srt, "dir validated", raises[0] if raises else srt.node, ok, "directions other than 1/-1 are rejected" if ok else
            "direction is not validated", nontrivial=False)
     ctx.ob("ORD-sort", srt, "no in-place list.sort", srt.node, not other, "receiver is not sorted in place" if not other else "in-place sort")
